@@ -141,6 +141,9 @@ func (h *Handler) ServeHTTP(response http.ResponseWriter, request *http.Request)
 	data, err := readAll(request.Body, request.ContentLength)
 	if err != nil {
 		h.onError(response, request, err)
+		_ = request.Body.Close()
+		response.WriteHeader(http.StatusBadRequest)
+		return
 	}
 	if err = request.Body.Close(); err != nil {
 		h.onError(response, request, err)
